@@ -23,7 +23,7 @@ import (
 func ruleR42(c *Ctx) *RuleResult {
 	p := c.p
 	r := &RuleResult{Rule: "R42", Title: "AVLBAL: after a rebalancing rotation every touched node's balance factor is the height difference of its subtrees", Floor: 2}
-	clause := "on every rotating path of %s (both directions, helpers expanded): the heights of the subtrees follow from the balance factors the path knows and from the repaired node being 2 heavier on side c; with the links and factors the path leaves, stored factor = height(Children[1]) - height(Children[0]) for every node it touched"
+	clause := "on every path of %s without rotation the node's factor moves by c (0 → c, -c → 0; a node leaning towards c is rotated) and the height signal says whether the subtree's height changed; on every rotating path of %s (both directions, helpers expanded): the heights of the subtrees follow from the balance factors the path knows and from the repaired node being 2 heavier on side c; with the links and factors the path leaves, stored factor = height(Children[1]) - height(Children[0]) for every node it touched"
 	slots := [2]string{"Children[0]", "Children[1]"}
 	for _, name := range []string{"putFix", "removeFix"} {
 		var fn *ssa.Function
@@ -33,7 +33,7 @@ func ruleR42(c *Ctx) *RuleResult {
 			}
 		}
 		key := "trees/avltree." + name
-		cl := fmt.Sprintf(clause, name)
+		cl := fmt.Sprintf(clause, name, name)
 		if fn == nil {
 			r.undecided(key, cl, "-", "anchored function not found")
 			continue
@@ -47,7 +47,7 @@ func ruleR42(c *Ctx) *RuleResult {
 			continue
 		}
 		var bad, skipped []string
-		nrot := 0
+		nrot, nflat := 0, 0
 		for _, dir := range []int{-1, 1} {
 			a := (dir + 1) / 2
 			for _, g := range gc.GCs {
@@ -261,6 +261,59 @@ func ruleR42(c *Ctx) *RuleResult {
 					}
 				}
 				if !rotated {
+					// a path without rotation: the side c gained one level relative to the other (putFix: it grew; removeFix:
+					// the other side shrank), so the factor moves by c — from 0 to c or from -c to 0; a node already leaning
+					// towards c must be rotated. The signal: putFix reports growth (only from 0), removeFix reports
+					// shrinking (only from -c).
+					nflat++
+					beta, ok := bInit[root]
+					if !ok {
+						skipped = append(skipped, where+": a path without rotation does not know the node's factor")
+						continue
+					}
+					if failed != "" {
+						skipped = append(skipped, where+": "+failed)
+						continue
+					}
+					if beta == dir {
+						bad = append(bad, where+": the node leans towards side c already (factor c), gains another level there and is not rotated")
+						continue
+					}
+					want := beta + dir
+					got, known, stored := beta, true, false
+					for i := len(bStores) - 1; i >= 0; i-- {
+						if bStores[i].obj == root {
+							got, known, stored = bStores[i].v, bStores[i].ok, true
+							break
+						}
+					}
+					_ = stored
+					if !known {
+						skipped = append(skipped, where+": the factor stored without rotation is not a known number")
+					} else if got != want {
+						bad = append(bad, fmt.Sprintf("%s: without rotation the node's factor must move from %d to %d (side c gained a level); it is left at %d", where, beta, want, got))
+					}
+					for _, st := range bStores {
+						if st.obj != root {
+							bad = append(bad, where+": a path without rotation writes the balance factor of another node ("+st.obj+")")
+						}
+					}
+					wantSig := beta == 0
+					if name == "removeFix" {
+						wantSig = beta == -dir
+					}
+					switch g.Exit.String() {
+					case "(return #:true)":
+						if !wantSig {
+							bad = append(bad, fmt.Sprintf("%s: reports a height change although the subtree keeps its height (factor %d → %d)", where, beta, want))
+						}
+					case "(return #:false)":
+						if wantSig {
+							bad = append(bad, fmt.Sprintf("%s: reports no height change although the subtree's height changed (factor %d → %d)", where, beta, want))
+						}
+					default:
+						skipped = append(skipped, where+": the height signal is not a constant")
+					}
 					continue
 				}
 				nrot++
@@ -407,9 +460,9 @@ func ruleR42(c *Ctx) *RuleResult {
 		case nrot == 0:
 			r.undecided(key, cl, p.FuncPos(fn), "no rotating path found")
 		case len(skipped) > 0:
-			r.ok(key, cl, p.FuncPos(fn), fmt.Sprintf("%d rotating path replays; NOT DECIDED for %d of them (%s)", nrot, len(dedup(skipped)), trunc(strings.Join(dedup(skipped), "; "), 400)))
+			r.ok(key, cl, p.FuncPos(fn), fmt.Sprintf("%d rotating and %d non-rotating path replays; NOT DECIDED for %d of them (%s)", nrot, nflat, len(dedup(skipped)), trunc(strings.Join(dedup(skipped), "; "), 400)))
 		default:
-			r.ok(key, cl, p.FuncPos(fn), fmt.Sprintf("%d rotating path replays (both directions): every touched node's factor equals its height difference", nrot))
+			r.ok(key, cl, p.FuncPos(fn), fmt.Sprintf("%d rotating and %d non-rotating path replays (both directions): every touched node's factor equals its height difference, the height signal is right", nrot, nflat))
 		}
 	}
 	return r
